@@ -12,7 +12,7 @@
 
    [explain] tells which of the two observations disagrees. *)
 From Coq Require Import List ZArith NArith Bool.
-From YV Require Import Cond.Syntax Cond.Sem Cond.Quirks Cond.RuleSet Cond.Machine Cond.Emit.
+From YV Require Import Cond.Syntax Cond.Sem Cond.Quirks Cond.RuleSet Cond.Machine Cond.Emit Cond.IrTree.
 Import ListNotations.
 
 Record case := mkCase {
@@ -24,7 +24,10 @@ Record case := mkCase {
   (* the same two observations when a rule that forces the pattern search is
      compiled in front of the rule set (classification only, see [explain]) *)
   c_warm_all : list nat;
-  c_warm_pub : list nat
+  c_warm_pub : list nat;
+  (* the IR the compiler built for every rule, in rule order: the dump that
+     Compiler::set_ir_writer received, parsed by the harness *)
+  c_ir : list irn
 }.
 
 Fixpoint nat_list_eqb (a b : list nat) : bool :=
@@ -70,20 +73,36 @@ Definition machine_agrees (c : case) : bool := machine_rules (c_data c) (c_globa
 Definition in_fragment (c : case) : list bool :=
   map (fun r => match tyof [] 0 (prefold (r_cond r)) with Some TBool => true | _ => false end) (c_rules c).
 
+(* Typing of identifiers, constant folding and slot allocation, exactly: the
+   IR the compiler built for every rule is the tree [IrTree.ir_of] predicts
+   from the condition as written, node by node. *)
+Fixpoint ir_rules (rules : list rule) (irs : list irn) : bool :=
+  match rules, irs with
+  | [], [] => true
+  | r :: t, i :: u => ir_agrees (r_cond r) i && ir_rules t u
+  | _, _ => false
+  end.
+Definition ir_matches (c : case) : bool := ir_rules (c_rules c) (c_ir c).
+(* number of IR nodes compared *)
+Definition ir_nodes (c : case) : nat := fold_right (fun i n => (irn_size i + n)%nat) 0%nat (c_ir c).
+
 (* the documented meaning predicts the observation, and also the observation
    made with the pattern search forced up-front (regression assert for the
    skipped lazy search repaired by commit e5009a16: both runs must agree) *)
-Definition check_case (c : case) : bool := agrees c && agrees_warm c && machine_agrees c.
+Definition check_case (c : case) : bool := agrees c && agrees_warm c && machine_agrees c && ir_matches c.
 Definition spec_case (c : case) : bool := check_case c.
 
 (* 0: both observations are predicted;
    5: only the run with the pattern search forced is predicted (the lazily
       emitted call to search_for_patterns was skipped: regression);
    8: only the plain run is predicted;
+   9: only the emitted-code model (Emit.v run on Machine.v) disagrees;
+   10: only the IR the compiler built differs from the predicted tree;
    255: neither *)
 Definition explain (c : case) : N :=
   if check_case c then 0%N
-  else if agrees c && agrees_warm c then 9%N   (* only the emitted-code model disagrees with Sem.v *)
+  else if agrees c && agrees_warm c && machine_agrees c then 10%N
+  else if agrees c && agrees_warm c then 9%N
   else if agrees_warm c then 5%N
   else if agrees c then 8%N
   else 255%N.
